@@ -86,6 +86,26 @@ def construct(kind, mode, why):
             if type(st.rbm_ph) is not type(m):
                 why.append(("construct:phase-network-type", None))
         shapes = (3, 3 if nh is None else 2, 4)
+        if len(st.networks) > 1 and mode == "module":
+            # the phase network is a copy of the module AS SUPPLIED: building a second state and changing the amplitude
+            # network (in place, and by reinitialising it) before anything looked at the phase network must not matter
+            for how in ("in-place", "reinitialise"):
+                torch.manual_seed(4)
+                m2 = L.PurificationRBM(3, 2, 4, gpu=False) if kind == "mixed" else L.BinaryRBM(3, 2, gpu=False)
+                for p_ in m2.parameters():
+                    p_.data.add_(0.2)
+                if kind == "mixed":
+                    m2.aux_bias.data.zero_()
+                want2 = [(n_, H(p_)) for n_, p_ in m2.named_parameters()]
+                st2 = call(T, 3, gpu=False, module=m2)
+                if how == "in-place":
+                    for p_ in m2.parameters():
+                        p_.data.mul_(-1.5).add_(0.3)
+                else:
+                    m2.initialize_parameters()
+                if [(n_, H(p_)) for n_, p_ in st2.rbm_ph.named_parameters()] != want2:
+                    why.append(("construct:phase-network-is-not-a-copy-of-the-module-as-supplied", dict(amplitude_changed=how)))
+                    break
     elif mode == "sizes":
         st = call(T, 3, 2, gpu=False) if kind != "mixed" else call(T, 3, 2, 4, gpu=False)
         shapes = (3, 2, 4)
